@@ -37,6 +37,11 @@ def gen_cl_small(rng, n, limits=False):
         if rng.random() < 0.12:
             # crash point: no temporary file can be created while this body is read
             t = bl.run_real('cl', data, cl, buf, mb, rng=rng, short_p=rng.choice([0.3, 1.0]), ctype=rng.choice(bl.CTYPES), fault=True)
+        elif style == 'short' and mb == -1 and 0 <= cl <= buf and d <= buf and rng.random() < 0.4:
+            # the handler looks at the parsed views (forms, params) first, then at the raw body: the same bytes
+            data = bytes(rng.choice(b'abc=&+12') for _ in range(d))         # (a form the parsed views accept)
+            t = bl.run_real('cl', data, cl, buf, mb, rng=rng, short_p=rng.choice([0.3, 1.0]),
+                            ctype=rng.choice(['application/x-www-form-urlencoded', 'text/plain', 'application/x-www-form-urlencoded; charset=utf-8']), via='views')
         elif style == 'plain':
             t = bl.run_real('cl', data, cl, buf, mb, ctype=rng.choice(bl.CTYPES), plain=rng.choice([0, 0, 3, 40]))
         elif style == 'full':
